@@ -1,4 +1,5 @@
 SPECIFICATION Spec
 CONSTANTS
   MaxTokens = 2
+  Plan <- NoPlan
 CHECK_DEADLOCK FALSE
